@@ -109,6 +109,8 @@ type exec struct {
 	log  []string
 
 	adversarial int
+	partial     int
+	throttled   bool
 	ntRead      bool
 	ntLock      bool
 	// C19 non-trivial rule: per key, flush generation in which the lock was set /
@@ -139,6 +141,9 @@ func (x *exec) step(i int, s Step) ([]*failure, error) {
 		r.Label("maint:" + what)
 		if s.Op == OpFlush || s.Op == OpRotate {
 			x.noteFlush()
+		}
+		if s.Op == OpHotLimit {
+			x.throttled = s.N > 0 && s.N < NoHotLimit
 		}
 		return nil, nil
 	case s.IsRead():
@@ -173,6 +178,19 @@ func (x *exec) step(i int, s Step) ([]*failure, error) {
 	obs, err := x.d.Do(s)
 	if err != nil {
 		return nil, err
+	}
+	if retryable(obs) {
+		// The engine refused one of the request's writes (hot-key throttle): the request
+		// took effect as a prefix of its engine writes.  The properties say nothing about
+		// such a response, so the model re-reads the touched keys from the store (lock via
+		// Reader.GetLock, write records via the iterator) and goes on from there; every
+		// later request is judged against that state.
+		x.log = append(x.log, fmt.Sprintf("%d %s -> %s (partial: model resynchronised)", i, s, respString(obs)))
+		r.Label("partial:" + s.Op)
+		if err := x.adopt(s); err != nil {
+			return nil, err
+		}
+		return nil, nil
 	}
 	exp := x.m.Apply(s, &obs)
 	x.log = append(x.log, fmt.Sprintf("%d %s -> %s", i, s, respString(obs)))
@@ -226,6 +244,63 @@ func (x *exec) step(i int, s Step) ([]*failure, error) {
 		}
 	}
 	return fs, nil
+}
+
+func retryable(r Resp) bool {
+	for _, e := range r.Errs {
+		if e.Kind == "retryable" {
+			return true
+		}
+	}
+	return false
+}
+
+// adopt re-reads lock and write records of the keys a request touched.
+func (x *exec) adopt(s Step) error {
+	keys := append([]int(nil), s.Keys...)
+	for _, mu := range s.Muts {
+		keys = append(keys, mu.K)
+	}
+	if s.Op == OpCheck {
+		keys = append(keys, s.Primary)
+	}
+	dump, err := x.d.Dump()
+	if err != nil {
+		return err
+	}
+	for _, k := range keys {
+		l, err := x.d.Lock(k)
+		if err != nil {
+			return err
+		}
+		mk := &x.m.Keys[k]
+		hadLock := mk.Lock != nil
+		mk.Lock = l
+		mk.Writes = nil
+		for _, rec := range dump.Recs {
+			if rec.K == k {
+				mk.Writes = append(mk.Writes, rec.W)
+			}
+		}
+		if l != nil && x.m.WriteByStart(k, l.Ts) != nil {
+			x.r.Label("partial:lock-and-decision-record-coexist")
+			x.partial++
+		}
+		if s.Op == OpPrewrite && l != nil && l.Ts == s.Start {
+			for _, mu := range s.Muts {
+				if mu.K == k && mu.Op == KPut {
+					mk.Data[s.Start] = string(mu.Value())
+				}
+			}
+		}
+		switch {
+		case !hadLock && l != nil:
+			x.lockState[k], x.setGen[k], x.remGen[k] = 1, x.d.Flushes, -1
+		case hadLock && l == nil:
+			x.lockState[k], x.remGen[k] = 2, x.d.Flushes
+		}
+	}
+	return nil
 }
 
 func (x *exec) noteFlush() {
